@@ -1,10 +1,12 @@
 import SlipVerif.Model.Printer
 import SlipVerif.Model.PrinterPretty
+import SlipVerif.Model.Wire6
 import SlipVerif.Driver.Util
 --! namespace: print
 /- line protocol for C03:
      print flat <base>:<radix>:<case>:<readably>:<array> <term word>*   →  ok <hex utf-8 text>
      print pretty <cfg> <margin> <term word>*                            →  ok <hex utf-8 text>
+     print frame <payload length>                                        →  ok <6 header characters>
      print read <read-base> <hex utf-8 text>                             →  ok <term word>* | err <class>
    term words:  n | t | i:<dec> | r:<num>/<den> | s:<hex> | y:<hex> | c:<codepoint>
               | ( <term>* [. <term>] ) | v( <term>* ) | a:<rank> <term>          -/
@@ -117,6 +119,10 @@ def handle (entry : String) (args : List String) : String :=
     | none, _, _ => "bad-request config"
     | _, none, _ => "bad-request margin"
     | _, _, _ => "bad-request term"
+  | "frame", [n] =>
+    match n.toNat? with
+    | some len => "ok " ++ String.ofList (SlipVerif.Wire6.frame (List.replicate len 0)).head
+    | none => "bad-request frame"
   | "read", [rb, h] =>
     match rb.toNat?, unhexString? h with
     | some rbase, some text =>
